@@ -579,3 +579,55 @@ mutual
 end
 
 end Pg.C05
+
+namespace Pg.C05
+
+/-! ### `to_json` options: `hide_frozen` (default True) and `hide_default_values` (default False)
+(dict.py:836-860; the options travel to every descendant through `**kwargs`) -/
+
+structure JOpts where
+  hideFrozen : Bool
+  hideDefault : Bool
+  deriving DecidableEq, Repr, Inhabited
+
+def JOpts.default : JOpts := ⟨true, false⟩
+
+def findField (k : Str) : List Field → Option Field
+  | [] => none
+  | f :: fs => if f.name = k then some f else findField k fs
+
+/-- Is attribute `k = x` left out of the JSON? MISSING always; a frozen field under `hide_frozen`;
+a value equal to the field's default under `hide_default_values`. -/
+def hiddenAttr (o : JOpts) (fs : List Field) (k : Str) (x : Tree) : Bool :=
+  isMissing x ||
+    match findField k fs with
+    | some f =>
+      (o.hideFrozen && f.frozen) ||
+        (o.hideDefault && match f.default with
+          | some d => Tree.beq x d
+          | none => false)
+    | none => false
+
+def ClassEnv.fieldsOf (env : ClassEnv) (c : Str) : List Field := (env.find c).getD []
+
+mutual
+  def toJsonO (o : JOpts) (env : ClassEnv) : Tree → JV
+    | .leaf a => atomJ a
+    | .list xs => .arr (toJsonOL o env xs)
+    | .tuple xs => .arr (.str tupleMarker :: toJsonOL o env xs)
+    | .dict kvs => .obj (toJsonOKV o env kvs)
+    | .obj c attrs => .obj ((.s typeKey, .str c) :: toJsonOA o env (env.fieldsOf c) attrs)
+  def toJsonOL (o : JOpts) (env : ClassEnv) : List Tree → List JV
+    | [] => []
+    | x :: xs => toJsonO o env x :: toJsonOL o env xs
+  def toJsonOKV (o : JOpts) (env : ClassEnv) : List (Key × Tree) → List (Key × JV)
+    | [] => []
+    | (k, x) :: xs => (k, toJsonO o env x) :: toJsonOKV o env xs
+  def toJsonOA (o : JOpts) (env : ClassEnv) (fs : List Field) : List (Str × Tree) → List (Key × JV)
+    | [] => []
+    | (k, x) :: xs =>
+      if hiddenAttr o fs k x then toJsonOA o env fs xs
+      else (.s k, toJsonO o env x) :: toJsonOA o env fs xs
+end
+
+end Pg.C05
